@@ -29,7 +29,8 @@ class KeyLogKernel(ModelMixin):
         self.position_keys = tuple(keys)
 
     def init_state(self, prng_key, model_state):
-        return {"keys": jnp.zeros((32, 2), dtype=jnp.uint32), "n": jnp.int32(0)}
+        # (the key of the init_state call is the first entry of the log)
+        return {"keys": jnp.zeros((32, 2), dtype=jnp.uint32).at[0].set(jnp.asarray(prng_key, dtype=jnp.uint32)), "n": jnp.int32(1)}
 
     def transition(self, prng_key, kernel_state, model_state, epoch):
         pos = self.position(model_state)
@@ -137,10 +138,10 @@ def bounded(tier, seed):
         for c in range(arr.shape[0]):
             allkeys += [tuple(int(v) for v in row) for row in arr[c][: int(n[c])]]
     # per kernel and chain: every transition + start_epoch/end_epoch per sampled epoch + tune per adaptation epoch + end_warmup once
-    per = sum(d for _, d, _ in SCHED[1:]) + 2 * len(SCHED[1:]) + sum(1 for t, _, _ in SCHED[1:] if t in (1, 2)) + 1
+    per = sum(d for _, d, _ in SCHED[1:]) + 2 * len(SCHED[1:]) + sum(1 for t, _, _ in SCHED[1:] if t in (1, 2)) + 1 + 1  # (+ init_state)
     want_n = 2 * 3 * per
     if len(allkeys) != want_n or len(set(allkeys)) != len(allkeys):
-        col.add({"sig": "native::repro::distinct_keys", "what": f"{len(allkeys)} kernel calls (transition, start_epoch, end_epoch, tune, end_warmup) received {len(set(allkeys))} distinct keys (expected {want_n} distinct)", "input": {"seed": s}})
+        col.add({"sig": "native::repro::distinct_keys", "what": f"{len(allkeys)} kernel calls (init_state, transition, start_epoch, end_epoch, tune, end_warmup) received {len(set(allkeys))} distinct keys (expected {want_n} distinct)", "input": {"seed": s}})
     else:
         col.add(None)
     # 4. chain independence: change the initial values of chains 1,2 only
@@ -224,7 +225,7 @@ def bounded(tier, seed):
     return {
         "evaluations": col.evals, "distinct_nontrivial": col.evals,
         "rule": ("BOUNDED: real EngineBuilder/Engine, 3 chains, two RW kernels on a Gaussian dict model, schedule INIT/FAST(4)/BURNIN(2)/POST(6, thinning 2): rerun equality, int seed vs "
-                 "PRNGKey, uniqueness of the keys received by every kernel call - transition, start_epoch, end_epoch, tune, end_warmup - (key-logging kernel), chain 0 unchanged when other chains' initial values change and chains 1,2 unchanged when chain 0's does (NUTS/HMC with step-size search at initialisation), a tracked key derived inside extract_position (softmax over the value) recorded per chain from the first sample on, first "
+                 "PRNGKey, uniqueness of the keys received by every kernel call - init_state, transition, start_epoch, end_epoch, tune, end_warmup - (key-logging kernel), chain 0 unchanged when other chains' initial values change and chains 1,2 unchanged when chain 0's does (NUTS/HMC with step-size search at initialisation), a tracked key derived inside extract_position (softmax over the value) recorded per chain from the first sample on, first "
                  f"recorded sample = initial value + jitter for replicated and per-chain states over two consecutive build() calls, and for 1, 2 and 5 chains; jitter functions switched off (None or an empty mapping) or replaced on the same builder. base seed {s}. Determinism of XLA is an assumption."),
         "samples": [{"seed": s, "schedule": SCHED}],
         "exhaustive": False, "violations": col.violations,
